@@ -179,9 +179,9 @@ def check(ctx):
                             f"cancel them and returns a wrong gradient", param=p, cls=cls.fq)
             else:
                 rep.unknown(RULE, where, f"F={sup!r} is an over-approximation; Δ={_fmt(cl)} ⊄ declared {_fmt(declared_nz)} cannot be decided")
-    rep.floor("class-attribute declarations (literal parameter_frequencies)", n_attr, 14)
+    rep.floor("class-attribute declarations (literal parameter_frequencies)", n_attr, 13)
     rep.floor("@parameter_frequencies.register handlers", n_handlers, 9)
     rep.floor("literal-returning handlers", n_hand, 6)
-    rep.floor("declared parameters whose support E4 resolved", n_resolved, 26)
-    rep.floor("declared parameters proved covered", n_proved, 26)
+    rep.floor("declared parameters whose support E4 resolved", n_resolved, 23)
+    rep.floor("declared parameters proved covered", n_proved, 23)
     return rep
